@@ -7,7 +7,7 @@ import os, re, sys, json, subprocess
 
 rnd = sys.argv[1]
 pids = sys.argv[2:] or ['C03','C04','C05','C06','C07','C08','C09','C10','C13','C16','C18','C19','C20']
-ORD = {'10':'TENTH','11':'ELEVENTH','12':'TWELFTH','13':'THIRTEENTH'}.get(rnd, rnd+'th')
+ORD = {'10':'TENTH','11':'ELEVENTH','12':'TWELFTH','13':'THIRTEENTH','14':'FOURTEENTH'}.get(rnd, rnd+'th')
 
 props = {}
 for l in open('/verif/properties.jsonl'):
@@ -43,6 +43,11 @@ STEER = {
      (b) values that ARRIVE THROUGH A DECODER (from_bytes / from_hex / from_json) in another producer's legal encoding and are then used by the builder flows: what the value remembers about its encoding, what equality / ordering / hashing of such a value says, what happens when a decoded and a constructed copy of the same value meet in one collection or one transaction;
      (c) hand-written `Clone` / `PartialEq` / `Ord` / `Hash` / `Default` of types that serve as map keys or set elements, and conversions between a typed collection and the builder that owns a copy of it;
      (d) things that only show on the SECOND object: a second transaction built from the same sub-builders, a builder cloned half-way with both halves continued, a `FixedTransaction` that is signed, serialized, loaded again and signed again.''',
+'14': '''Prefer changes of one of these kinds, which earlier rounds used least:
+     (a) a distinction between ABSENT and EMPTY/ZERO that one of two sites gets wrong (`is_none()` vs `is_empty()`, `Some(0)` vs `None`, an empty collection that is set vs never set, a default configuration value vs an explicit equal one);
+     (b) CHECKED vs SATURATING vs WRAPPING arithmetic and integer-width conversions (u64 <-> i128 <-> BigNum <-> Int, `as` casts, `try_into`) on a path where only large but legal amounts (near 2^63, 2^64-1, 45e15 total supply) or a negative mint meet it;
+     (c) ITERATION ORDER: a BTreeMap replaced by an insertion-ordered map (or back), a sort key that ties, `first()`/`last()`/`max_by` on ties, stable vs unstable sort, where a later step depends on the order;
+     (d) a guard placed one statement too late or too early (state is changed, then the error is returned; an early `return Ok` before a bookkeeping step).''',
 }.get(rnd, '')
 
 TEMPLATE = '''You are helping to evaluate a verification harness by producing realistic, subtle bugs ("seeded changes") in a Rust library.
